@@ -375,7 +375,7 @@ def geometry_and_values(ck):
                 # --- values: random integer image, vs direct convolution (model index formula)
                 x = rng.integers(-8, 9, shape).astype(float)
                 r = check_values(ck, c, x, "random image")
-                if ncase % (2 if ck.thorough() else 3) == 0 or all(k == 1 for k in c.k):     # a half (quick: a third) of the cases + every one-voxel kernel
+                if ck.thorough() or ncase % 3 == 0 or all(k == 1 for k in c.k):     # quick: a third of the cases + every one-voxel kernel
                     options_on_case(ck, rng, c, x, A3, t, shape, fwhm, r)
                 if r is not None:
                     out, full = r
